@@ -201,6 +201,15 @@ def decoder_arms(db, b, tname):
     for lit, leaf in arms:
         leafs.setdefault(leaf, []).append(lit)
     out = []
+    # the arms are studied with private helpers inlined (`ensure_vacant(x.as_ref())?` instead of a literal `if x.is_some() { return Err(..) }`);
+    # the blocks of the closure keep their indices, the helper's blocks are appended
+    raw_clo = clo
+    if any((db.bodies.get(t["callee"].get("resolved") or "") or db.bodies.get(callee_def(t))) is not None and
+           not callee_def(t).startswith(DE + "Deserializer") for _, t in clo.calls()):
+        try:
+            clo = inline.inlined(db, clo)
+        except Exception:
+            clo = raw_clo
     all_leaves = set(leafs) | set(defaults)
     for leaf, lits in leafs.items():
         others = set()
@@ -245,6 +254,10 @@ def decoder_arms(db, b, tname):
                     for w in fw:
                         if w["kind"] == "Err":
                             sl = flow.backward(clo, w["rv"]["ops"][0], at=w["bi"])
+                            if any(rv.get("variant") == "DuplicateField" for _, rv in sl.aggs):
+                                dup_guard = True
+                        elif w["kind"] == "residual" and w["term"]["args"]:
+                            sl = flow.backward(clo, w["term"]["args"][0], at=w["bi"])
                             if any(rv.get("variant") == "DuplicateField" for _, rv in sl.aggs):
                                 dup_guard = True
         out.append({"lits": [l.decode("latin1") for l in lits], "assigned": sorted(map(str, assigned)), "readers": readers, "dup_guard": dup_guard, "flattened": flattened,
@@ -523,12 +536,14 @@ def rule_r7(chk, db):
                     "quick-xml `%s` events (character data) are skipped by the event pump: `<Key><![CDATA[abc]]></Key>` decodes as the empty string" % v if v == "CData" else
                     "quick-xml `%s` events (character data) are skipped by the event pump" % v)
     # expect_end: a Text event may be skipped only after its content was inspected
-    e = inline.inlined(db, db.body(DE + "Deserializer::<'xml>::expect_end"))
-    if e is None:
-        chk.anchor_missing("R7", "expect_end not found")
-        return
+    # (any method of the deserialiser that loops over events and goes round again on Text)
     skipped_uninspected = False
-    for s2 in e.live_blocks():
+    e_loc = None
+    cands = [inline.inlined(db, x) for x in db.bodies.values() if x.crate == "s3s" and x.kind == "AssocFn" and x.name.startswith(DE + "Deserializer") and
+             "::tests::" not in x.name]
+    n_skip = 0
+    for e in cands:
+      for s2 in e.live_blocks():
         t2 = e.blocks[s2]["term"]
         if t2["k"] == "switch":
             src = paths.switch_source(e, t2)
@@ -537,6 +552,10 @@ def rule_r7(chk, db):
                 for lab, val in vals2.items():
                     if val == "Text":
                         tb = flow.edge_target(e, (s2, lab))
+                        if s2 not in flow.reach(e, [tb]):
+                            continue        # Text does not lead round the loop again: nothing is skipped here
+                        n_skip += 1
+                        e_loc = e_loc or e.loc(s2)
                         # on the Text edge, before looping back: is the payload read (any use of (ev as Text).0)?
                         r = flow.reach(e, [tb], removed=frozenset(flow.back_edges(e)))
                         used = False
@@ -566,7 +585,7 @@ def rule_r7(chk, db):
                 merges = True
     if merges:
         skipped_uninspected = False
-    chk.verdict(not skipped_uninspected, "R7", "text-after-text-dropped", e.loc(),
+    chk.verdict(not skipped_uninspected, "R7", "text-after-text-dropped", e_loc or "crates/s3s/src/xml/de.rs",
                 "expect_end discards Text events without looking at them: character data that follows the first text node of a leaf (after a comment, CDATA section or "
                 "entity boundary) is silently dropped, e.g. `<Key>ab<!-- c -->cd</Key>` decodes as `ab`")
 
